@@ -10,12 +10,14 @@ package main
 
 import (
 	"fmt"
+	"os"
+	"runtime/debug"
+	"runtime/pprof"
 	"sort"
 	"strconv"
 	"strings"
 	"sync"
 
-	"github.com/XiaoMi/Gaea/parser/ast"
 	"github.com/XiaoMi/Gaea/proxy/plan"
 
 	"verif/engine/enum"
@@ -73,15 +75,12 @@ type outcome struct {
 
 // runFresh runs one case from scratch (own rig, own plan, own store): this is what a
 // replay does and what every violation is confirmed with.
-func runFresh(c Case) outcome {
+func runFresh(w *worker, c Case) outcome {
 	l, err := parseLayout(c.Layout)
 	if err != nil {
 		ev.Fatalf("%v", err)
 	}
-	rg, err := rig.New(l)
-	if err != nil {
-		ev.Fatalf("%v", err)
-	}
+	rg := w.rig(l)
 	sql := render(c.Q, l)
 	refStmt, err := rg.Parse(sql)
 	if err != nil {
@@ -92,12 +91,12 @@ func runFresh(c Case) outcome {
 		ev.Fatalf("%v", err)
 	}
 	p, err := rg.Build(sql)
-	return runOne(rg.NewExec(st), p, err, refStmt, st, sql)
+	return runOne(rg.NewExec(st), p, err, &sqlref.Prepared{Stmt: refStmt}, st, sql)
 }
 
-func runOne(ex *rig.Exec, p plan.Plan, buildErr error, refStmt ast.StmtNode, st *rig.Store, sql string) outcome {
+func runOne(ex *rig.Exec, p plan.Plan, buildErr error, refStmt *sqlref.Prepared, st *rig.Store, sql string) outcome {
 	o := outcome{sql: sql}
-	ref, err := sqlref.Query(st.Union, refStmt, false)
+	ref, err := refStmt.Query(st.Union, false)
 	if err != nil {
 		o.status, o.errText = "invalid", err.Error()
 		return o
@@ -214,18 +213,30 @@ func describe(l rig.Layout, content []int) []string {
 // locally minimal witness (no clause can be reset to its default and no row removed with
 // the violation persisting). Non-minimal cases are counted, not reported: each of them has
 // a smaller violating case in the enumerated universe, which is reported itself.
-func confirm(r *ev.Run, c Case, reuse outcome) {
-	first := runFresh(c)
-	for i := 0; i < 4; i++ {
-		again := runFresh(c)
-		if again.status != first.status {
-			r.Add("unstable_verdicts", 1)
-			first.status = "violation"
-			first.v.kind = "unstable:" + first.v.kind + again.v.kind
-		}
+var violSet sync.Map // caseKey -> true for every case confirmed violating with a fresh plan
+
+func caseKey(c Case) string { return fmt.Sprint(c.Layout, c.Q, c.Content) }
+
+// violates reports whether a sub-case violates (memoised).
+func violates(w *worker, c Case) bool {
+	k := caseKey(c)
+	if _, ok := violSet.Load(k); ok {
+		return true
+	}
+	if runFresh(w, c).status == "violation" {
+		violSet.Store(k, true)
+		return true
+	}
+	return false
+}
+
+func confirm(r *ev.Run, w *worker, c Case, reuse outcome) {
+	first := runFresh(w, c)
+	if first.status == "violation" {
+		violSet.Store(caseKey(c), true)
 	}
 	l, _ := parseLayout(c.Layout)
-	rg, _ := rig.New(l)
+	rg := w.rig(l)
 	feat := features(c.Q)
 	feat["layout_rule"] = l.Rule
 	if first.status != "violation" {
@@ -248,20 +259,29 @@ func confirm(r *ev.Run, c Case, reuse outcome) {
 		}
 		q := append([]int{}, c.Q...)
 		q[d] = 0
-		if runFresh(Case{Layout: c.Layout, Q: q, Content: c.Content}).status == "violation" {
+		if violates(w, Case{Layout: c.Layout, Q: q, Content: c.Content}) {
 			r.Add("violations_nonminimal", 1)
 			return
 		}
 	}
 	for i := range c.Content {
 		cc := append(append([]int{}, c.Content[:i]...), c.Content[i+1:]...)
-		if runFresh(Case{Layout: c.Layout, Q: c.Q, Content: cc}).status == "violation" {
+		if violates(w, Case{Layout: c.Layout, Q: c.Q, Content: cc}) {
 			r.Add("violations_nonminimal", 1)
 			return
 		}
 	}
+	// a reported witness must fail identically five times
+	for i := 0; i < 4; i++ {
+		again := runFresh(w, c)
+		if again.status != first.status || again.v.kind != first.v.kind {
+			r.Add("unstable_verdicts", 1)
+			first.v.kind = "unstable"
+		}
+	}
 	r.Add("violations_minimal", 1)
 	feat["mismatch"] = first.v.kind
+	noteClass(feat)
 	for k, v := range traits(l, rg, c.Content) {
 		feat[k] = v
 	}
@@ -269,6 +289,39 @@ func confirm(r *ev.Run, c Case, reuse outcome) {
 	r.Violation(ev.Witness{
 		Summary:  fmt.Sprintf("[%s] %s on %v: %s", c.Layout, first.sql, c.Rows, first.v.detail),
 		Features: feat, Case: c})
+}
+
+var (
+	classMu sync.Mutex
+	classes = map[string]int{}
+)
+
+// noteClass keeps a histogram of minimal-witness classes (printed with VERIF_DEBUG=1).
+func noteClass(f map[string]string) {
+	var parts []string
+	for _, d := range dimNames {
+		if v := f[d]; v != "none" && v != "no" && !(d == "proj" && v == "cols") && !(d == "from" && v == "t") {
+			parts = append(parts, d+"="+v)
+		}
+	}
+	parts = append(parts, "mismatch="+f["mismatch"])
+	classMu.Lock()
+	classes[strings.Join(parts, " ")]++
+	classMu.Unlock()
+}
+
+func printClasses() {
+	if os.Getenv("VERIF_DEBUG") == "" {
+		return
+	}
+	var ks []string
+	for k := range classes {
+		ks = append(ks, k)
+	}
+	sort.Strings(ks)
+	for _, k := range ks {
+		fmt.Printf("CLASS %6d  %s\n", classes[k], k)
+	}
 }
 
 type worker struct {
@@ -368,12 +421,19 @@ type item struct {
 
 func main() {
 	gx.Quiet()
+	debug.SetGCPercent(800)
+	if pf := os.Getenv("VERIF_PROF"); pf != "" {
+		f, _ := os.Create(pf)
+		pprof.StartCPUProfile(f)
+		defer pprof.StopCPUProfile()
+	}
 	r := ev.Start("C02", "exploration")
 	selfTest()
 
 	var rc Case
 	if r.ReplayCase(&rc) {
-		o := runFresh(rc)
+		w := &worker{rigs: map[string]*rig.Rig{}}
+		o := runFresh(w, rc)
 		fmt.Printf("replay: [%s] %s\n  content %v\n  status=%s %s %s\n", rc.Layout, o.sql, describe(mustLayout(rc.Layout), rc.Content), o.status, o.v.kind, o.v.detail)
 		for _, s := range o.shards {
 			fmt.Println("   ", s)
@@ -382,7 +442,7 @@ func main() {
 			fmt.Println("  error:", o.errText)
 		}
 		if o.status == "violation" {
-			confirm(r, rc, o)
+			confirm(r, w, rc, o)
 		}
 		r.Set("evaluations", 1)
 		r.Finish()
@@ -400,18 +460,22 @@ func main() {
 	enum.Deviations(dims(), devReduced, func(idx []int) { queriesReduced = append(queriesReduced, append([]int{}, idx...)) })
 
 	full, reduced := layouts(r)
-	var items []item
-	// interleave layouts inside each query so that a time cap cuts all layouts at the
-	// same deviation depth
-	for qi, q := range queriesFull {
-		for _, l := range full {
-			items = append(items, item{l, q, qi})
-		}
-		if qi < len(queriesReduced) {
-			for _, l := range reduced {
-				items = append(items, item{l, q, qi})
+	// item n -> (query, layout): layouts are interleaved inside each query so that a time
+	// cap cuts all layouts at the same deviation depth (fewest deviations first)
+	nR, nF := len(queriesReduced), len(queriesFull)
+	perR := len(full) + len(reduced)
+	nItems := nR*perR + (nF-nR)*len(full)
+	itemAt := func(n int) item {
+		if n < nR*perR {
+			qi, k := n/perR, n%perR
+			if k < len(full) {
+				return item{full[k], queriesFull[qi], qi}
 			}
+			return item{reduced[k-len(full)], queriesFull[qi], qi}
 		}
+		n -= nR * perR
+		qi := nR + n/len(full)
+		return item{full[n%len(full)], queriesFull[qi], qi}
 	}
 
 	// stores are read-only for SELECTs and shared by all workers
@@ -446,8 +510,8 @@ func main() {
 	var sampleMu sync.Mutex
 	sampled := map[string]bool{}
 
-	done := enum.Parallel(len(items), r.TimeUp, func(n int) {
-		it := items[n]
+	done := enum.Parallel(nItems, r.TimeUp, func(n int) {
+		it := itemAt(n)
 		w := pool.Get().(*worker)
 		defer pool.Put(w)
 		rg := w.rig(it.l)
@@ -460,7 +524,8 @@ func main() {
 		}
 		// statements MySQL itself would reject (or whose answer it leaves undefined) are
 		// not part of the property's domain
-		if _, err := sqlref.Query(valid[it.l.Name()].Union, refStmt, false); err != nil {
+		prep := &sqlref.Prepared{Stmt: refStmt}
+		if _, err := prep.Query(valid[it.l.Name()].Union, false); err != nil {
 			r.Add("queries_invalid", 1)
 			return
 		}
@@ -482,7 +547,7 @@ func main() {
 			if len(contents[ci]) > nrows {
 				continue
 			}
-			o := runOne(ex, p, nil, refStmt, st, sql)
+			o := runOne(ex, p, nil, prep, st, sql)
 			switch o.status {
 			case "invalid":
 				continue
@@ -503,7 +568,7 @@ func main() {
 			}
 			if o.status == "violation" {
 				nViol++
-				confirm(r, Case{Layout: it.l.Name(), Q: it.q, Content: contents[ci]}, o)
+				confirm(r, w, Case{Layout: it.l.Name(), Q: it.q, Content: contents[ci]}, o)
 			} else if o.merged >= 2 && deviations(it.q) >= 2 {
 				key := projs[it.q[dProj]].name + "/" + orders[it.q[dOrder]].name
 				sampleMu.Lock()
@@ -524,8 +589,8 @@ func main() {
 			r.Distinct("queries_compared", strconv.Itoa(it.qi))
 		}
 	})
-	if done < len(items) {
-		r.Capped(fmt.Sprintf("%d of %d (layout, query) items in fewest-deviations-first order", done, len(items)))
+	if done < nItems {
+		r.Capped(fmt.Sprintf("%d of %d (layout, query) items in fewest-deviations-first order", done, nItems))
 	}
 
 	var names []string
@@ -541,12 +606,14 @@ func main() {
 	r.Set("layouts_reduced_grammar", names)
 	r.Set("bounds", fmt.Sprintf("contents: all multisets of <=%d rows of a %d-row universe (%d contents); queries: all clause vectors with <=%d deviations (%d) on the full-grammar layouts, <=%d deviations (%d) on the others; clause options per dimension %v",
 		maxRows, len(rig.Universe), len(contents), devFull, len(queriesFull), devReduced, len(queriesReduced), dims()))
-	r.Set("universe_items", len(items))
+	r.Set("universe_items", nItems)
 	r.Set("rule", "cases = layout x query vector (enum.Deviations over the clause tables of grammar.go) x content (enum.Multisets over rig.Universe); a case is evaluated when MySQL semantics define its answer (sqlref accepts it) and Gaea builds a plan; it is non-trivial when at least two per-shard statements returned rows that had to be merged; distinct_nontrivial counts distinct (query vector, content) pairs among those")
 	r.Assume("sqlref implements MySQL semantics for the supported subset (ONLY_FULL_GROUP_BY, binary string collation, NULLs first ascending); it answers both the original statement on the union table and every rewritten statement on a shard")
 	r.Assume("backend results reach the merger typed as RowData.ParseText types them for MySQL's field types (INT->LONG, COUNT->LONGLONG, SUM->NEWDECIMAL, VARCHAR->VAR_STRING, DATE->DATE)")
 	r.Assume("per-shard results are concatenated in slice-name, database-name, statement order as SessionExecutor.executeShardSQLInSlice does")
 	r.Assume("a panic inside BuildPlan/ExecuteIn is the error handleQuery's recover turns it into")
+	printClasses()
+	pprof.StopCPUProfile()
 	r.Finish()
 }
 
